@@ -13,7 +13,7 @@ ID = 'C13'
 DOMAIN = 'gin/register'
 PROPS_FILES = ['Gin/Props/C13.lean']
 ANCHOR_FILES = ['config.py']
-RULE = ('(a) every callable / class shape of a fixed table {function, builtin, class with __init__, __new__, both, neither, '
+RULE = ('(a) every callable / class shape of a fixed table {function, functools.wraps-decorated function, builtin, two equal-but-distinct callable objects under one name, class with __init__, __new__, both, neither, '
         'custom metaclass, __slots__, namedtuple, abstract-base subclass, class with a registered method} x registration API '
         '{configurable, register, external_configurable} x {unscoped, scoped access}: direct call vs registry call, type(), '
         'isinstance, issubclass, __name__/__doc__/__module__, inspect.signature, pickle round trip, class __dict__ before '
